@@ -241,6 +241,7 @@ func staticCheck(prop string, salt int, families []string, nProgQ, nProgT, nMutQ
 			o := pool.Run([]sup.Job{{Kind: "typecheck", Text: string(b)}}, nil)[0]
 			c.PinnedWitness("K1", o.Res != nil && o.Res.TcOK, "accepts a program that breaks mode independence: independence@top (pinned witness)", map[string]interface{}{"program": string(b)})
 		}
+		contextMatrix(c, pool)
 	}
 	if prop == "C07" && c07Extra != nil {
 		c07Extra(c, pool)
